@@ -326,12 +326,13 @@ Grid::reduce_reduced(Swapping_Vector<typename M::row_type>& rows,
       num_rows_to_subtract = row_dim / pivot_dim;
 
       // Ensure that after subtracting num_rows_to_subtract * r_dim
-      // from row_dim, -pivot_dim_half < row_dim <= pivot_dim_half.
-      // E.g., if pivot[dim] = 9, then after this reduction
-      // -5 < row_dim <= 5.
+      // from row_dim, pivot_dim_half - pivot_dim < row_dim <= pivot_dim_half,
+      // so that each residue class modulo pivot_dim has exactly one
+      // representative.  E.g., if pivot[dim] = 9, then after this reduction
+      // -4 < row_dim <= 5.
       row_dim_remainder = row_dim % pivot_dim;
       if (row_dim_remainder < 0) {
-        if (row_dim_remainder <= -pivot_dim_half) {
+        if (row_dim_remainder <= pivot_dim_half - pivot_dim) {
           --num_rows_to_subtract;
         }
       }
